@@ -397,6 +397,12 @@ def family(job):
     d = tempfile.mkdtemp(prefix='verif_c09_', dir=shm)
     try:
         return _family(job, d)
+    except common.MachineryError:
+        raise
+    except Exception as e:                  # a call of the library the driver does not expect to fail
+        import traceback
+        return {'job': job, 'kind': '?', 'traces': [], 'keys': [], 'desc': {}, 'setup_error': None, 'problems': [],
+                'fatal': '%r %s' % (e, traceback.format_exc()[-600:])}
     finally:
         import shutil
         shutil.rmtree(d, True)
@@ -571,8 +577,9 @@ def run(replay=None):
     lap('drive')
     trecs, tinfo, krecs, kinfo = [], [], [], []
     for fam in fams:
-        if fam['setup_error']:
-            raise common.MachineryError('wallet setup failed: %s' % fam['setup_error'])
+        if fam['setup_error'] or fam.get('fatal'):
+            ck.violation(None, 'clause call-raised; wallet family %s: %s' % (fam['job'], fam['setup_error'] or fam['fatal']), {'job': fam['job']})
+            continue
         for t in fam['traces']:
             trecs.append(t)
             tinfo.append(fam)
